@@ -603,7 +603,8 @@ func (t *tr2) checkShadow(fd *ast.FuncDecl) {
 	})
 }
 
-// findFresh marks slice variables that are created by make and never copied to another variable.
+// findFresh marks slice variables created by make, and pointer variables created by &T{...}, that
+// are never copied to another variable (their pointee cannot be observed through an alias).
 func (t *tr2) findFresh(fd *ast.FuncDecl) {
 	bad := map[types.Object]bool{}
 	aliasOf := func(e ast.Expr) types.Object {
@@ -614,8 +615,10 @@ func (t *tr2) findFresh(fd *ast.FuncDecl) {
 			case *ast.SliceExpr:
 				e = x.X
 			case *ast.Ident:
-				if o := t.info.Uses[x]; o != nil && isSlice(o.Type()) {
-					return o
+				if o := t.info.Uses[x]; o != nil {
+					if _, isP := o.Type().Underlying().(*types.Pointer); isP || isSlice(o.Type()) {
+						return o
+					}
 				}
 				return nil
 			default:
@@ -638,6 +641,13 @@ func (t *tr2) findFresh(fd *ast.FuncDecl) {
 				}
 				if x.Tok == token.DEFINE && i < len(x.Lhs) {
 					if id, ok := x.Lhs[i].(*ast.Ident); ok {
+						if u, ok := r.(*ast.UnaryExpr); ok && u.Op == token.AND {
+							if _, isLit := u.X.(*ast.CompositeLit); isLit { // p := &T{...}: a fresh pointee
+								if o := t.info.Defs[id]; o != nil {
+									t.fresh[o] = true
+								}
+							}
+						}
 						if call, ok := r.(*ast.CallExpr); ok {
 							if f, ok := call.Fun.(*ast.Ident); ok && f.Name == "make" {
 								if o := t.info.Defs[id]; o != nil {
